@@ -19,9 +19,19 @@ Legs
         moved to increasing logical mtimes, the write under test is stamped by the real clock).
         oracle: the snapshot written LAST is the one that is loaded: path, version, store weights and graph
         (== its written GEL section); the body at the returned path holds the state it was written from; marker.
+ (live) the rt chain on states as the ENGINE leaves them: every state-field layout {graph only; graph + a `gel` mirror
+        that is the same object / a shallow copy / a deep copy / a separately built empty graph / a stale other graph}
+        x every short history of real GEL operations (observe_retrieval, tick, apply_merge) run on that state before
+        the write.  oracle: the same four clauses, the input graph being the live `state.graph` at write time (the
+        graph the GEL layer maintains: docs/m11 "snapshots include state.graph.*", gel.py "only state.graph is mutated").
+ (env)  the rt chain and the PR34 writers under every answer of the process environment the writers consult
+        (SOURCE_DATE_EPOCH in {unset, integers incl. 0 / negative / blank-padded, empty, date string, fractional,
+        integer beyond the platform time range}).  oracle: unchanged (marker on every body + sidecar, round trip,
+        fixpoint); a write that REFUSES (raises) under a value that is not a usable integer is not judged.
 """
 from __future__ import annotations
 
+import copy
 import itertools
 import json
 import math
@@ -33,6 +43,7 @@ from pathlib import Path
 from mc.runner import Run, Stats, HarnessError
 
 from clematis.engine import snapshot as snap
+from clematis.engine import gel as gel_mod
 from clematis.io import atomic as atomic_mod
 
 os.environ["SOURCE_DATE_EPOCH"] = "1735689600"   # sidecar created_at must not read the wall clock
@@ -44,6 +55,9 @@ MARKER = "v1"          # the frozen schema marker (docs/m13/snapshot_freeze.md),
 for _n in ("write_snapshot", "load_latest_snapshot"):
     if not callable(getattr(snap, _n, None)):
         raise HarnessError("seam missing: clematis.engine.snapshot.%s" % _n)
+for _n in ("observe_retrieval", "tick", "apply_merge"):
+    if not callable(getattr(gel_mod, _n, None)):
+        raise HarnessError("seam missing: clematis.engine.gel.%s" % _n)
 
 
 # ----------------------------------------------------------------------------- helpers
@@ -124,8 +138,18 @@ CFGS = {
 }
 
 
+# configs of the live leg: the GEL layer is switched on (its operations are no-ops otherwise); kept out of CFGS so the
+# F1 product is unchanged
+LIVE_CFGS = {
+    "gel-on": ({}, {"enabled": True}, (-1.0, 1.0)),
+    # narrower than what two observations accumulate (2 x alpha = 0.04): the live weights get clamped on write
+    "gel-on-narrow": ({}, {"enabled": True, "weight_min": -0.03, "weight_max": 0.03}, (-0.03, 0.03)),
+}
+ALL_CFGS = dict(CFGS, **LIVE_CFGS)
+
+
 def mk_ctx(cfgname: str, d: str, agent: str, turn: int):
-    t4x, g, _ = CFGS[cfgname]
+    t4x, g, _ = ALL_CFGS[cfgname]
     cfg = {"t4": dict({"snapshot_dir": d}, **t4x)}
     if g is not None:
         cfg["graph"] = dict(g)
@@ -346,26 +370,102 @@ def _edge_feature(case, doc, p):
         cls = sorted({wclass(w) for w in ws})
         if "nan" in cls:
             cls = ["nan"]     # one NaN edge on the pair is the cause, whatever else shares the pair
-        b = CFGS[case["cfg"]][2]
+        b = ALL_CFGS[case["cfg"]][2]
         z = "" if b is None or b[0] <= 0.0 <= b[1] else ",bounds-exclude-0"
         return ":" + "+".join(cls) + "-weight" + z
     except Exception:
         return ""
 
 
-def check_rt(case, d):
+# ----------------------------------------------------------------------------- live states (layout + GEL history)
+MIRRORS = ["absent", "same", "shallow", "deep", "empty", "stale"]
+GEL_OPS = ["obs2", "obs3", "tick", "merge"]
+STALE_GEL = {"nodes": {"x": {"id": "x", "label": "old", "attrs": {}}},
+             "edges": {"x→y": {"id": "x→y", "src": "x", "dst": "y", "rel": "coact", "weight": 0.5,
+                               "attrs": {"coact": 9, "last_seen_turn": 1}, "updated_at": None}},
+             "meta": {"schema": "v1.1", "merges": [], "splits": [], "promotions": [], "concept_nodes_count": 0, "edges_count": 1}}
+
+
+def set_field(st, k, v):
+    if isinstance(st, dict):
+        st[k] = v
+    else:
+        setattr(st, k, v)
+
+
+def apply_live(case, s0, ctx, tags):
+    """lay out the `gel` mirror next to `graph` as the case says, then run the case's GEL operations on the state
+    through the real engine entry points.  -> None, or (sig, what) when an engine operation raises"""
+    mirror = case.get("mirror", "absent")
+    g = sget(s0, "graph")
+    if mirror == "same":
+        set_field(s0, "gel", g)
+    elif mirror == "shallow":        # scripts/chat.py _empty_state(): two dict() copies of one literal
+        set_field(s0, "gel", dict(g))
+    elif mirror == "deep":
+        set_field(s0, "gel", copy.deepcopy(g))
+    elif mirror == "empty":          # scripts/chat.py reset: two separately built empty graphs
+        set_field(s0, "gel", {"nodes": {}, "edges": {}, "meta": {"schema": "v1.1"}})
+    elif mirror == "stale":
+        set_field(s0, "gel", copy.deepcopy(STALE_GEL))
+    elif mirror != "absent":
+        raise HarnessError("unknown mirror layout %r" % (mirror,))
+    tags.add("mirror=" + mirror)
+    before = copy.deepcopy(sget(s0, "graph"))
+    turn, agent = case.get("turn", 3), case["agent"]
+    for i, op in enumerate(case.get("ops") or []):
+        try:
+            if op == "obs2":
+                gel_mod.observe_retrieval(ctx, s0, [("a", 0.9), ("b", 0.8)], turn=turn, agent=agent)
+            elif op == "obs3":
+                gel_mod.observe_retrieval(ctx, s0, [("a", 0.9), ("ç", 0.8), ("b", 0.7)], turn=turn, agent=agent)
+            elif op == "tick":
+                gel_mod.tick(ctx, s0, decay_dt=1, turn=turn, agent=agent)
+            elif op == "merge":
+                gel_mod.apply_merge(ctx, s0, {"nodes": ["a", "b"], "size": 2, "avg_w": 0.5, "diameter": 1, "signature": "a|b"})
+            else:
+                raise HarnessError("unknown GEL op %r" % (op,))
+        except HarnessError:
+            raise
+        except Exception as e:
+            return ("live:gel-op-raises:" + type(e).__name__, "GEL op #%d %s on the state raised %r" % (i + 1, op, e))
+    if case.get("ops"):
+        tags.add("ops=%d" % len(case["ops"]))
+        if not deq(before, sget(s0, "graph")):
+            tags.add("graph-evolved")
+    gl, gm = sget(s0, "graph"), sget(s0, "gel")
+    if gm is not None and gm is not gl:
+        tags.add("mirror-diverged" if not deq(gm, gl) else "mirror-equal-copy")
+    return None
+
+
+def is_live(case) -> bool:
+    return "mirror" in case or bool(case.get("ops"))
+
+
+def check_rt(case, d, collapse=True):
     """returns (violations [(sig, what)], outcome tags, n_transitions)"""
     out = []
     tags = set()
     steps = 0
     clean_dir(d)
     agent, version, shape, cfgname = case["agent"], case["version"], case["shape"], case["cfg"]
-    bounds = CFGS[cfgname][2]
+    bounds = ALL_CFGS[cfgname][2]
     ctx = mk_ctx(cfgname, d, agent, case.get("turn", 3))
     graph_in = json.loads(json.dumps(case.get("graph")))  # private copy (NaN/Infinity survive)
     store0 = build_w(case.get("store"))
     w0 = dict(store0.w) if store0 is not None else {}
     s0 = mk_state(shape, store0, version, graph_in, case.get("field", "graph"))
+    graph_ref = case.get("graph")
+    mirror_ref = None
+    if is_live(case):
+        err = apply_live(case, s0, ctx, tags)
+        if err is not None:
+            return [err], tags | {"gel-op-raises"}, steps
+        # the graph the snapshot is written from: the live state.graph at write time
+        graph_ref = copy.deepcopy(sget(s0, "graph"))
+        if "mirror-diverged" in tags:
+            mirror_ref = copy.deepcopy(sget(s0, "gel"))
 
     # ---- write 1
     try:
@@ -386,11 +486,15 @@ def check_rt(case, d):
     if not isinstance(gel_w, dict):
         out.append(("written-gel:shape", "body has no gel section"))
         return out, tags, steps
-    wr = ref_check_written(case.get("graph"), gel_w, bounds)
+    wr = ref_check_written(graph_ref, gel_w, bounds)
+    if collapse and wr and mirror_ref is not None and not ref_check_written(mirror_ref, gel_w, bounds):
+        # one root cause, one signature: the body is not the image of state.graph but it IS the image of the mirror
+        wr = [("written-gel:taken-from-gel-mirror", "body gel section %s is the image of state.gel %s, not of the live state.graph %s" % (
+            J(gel_w)[:300], J(mirror_ref)[:300], J(graph_ref)[:300]))]
     out += wr
 
     # outcome / sanitisation tags (for anti-vacuity and the non-trivial rule)
-    ein = edges_in(case.get("graph"))
+    ein = edges_in(graph_ref)
     for e in ein:
         w = float(e.get("weight", 0.0))
         if not math.isfinite(w):
@@ -403,9 +507,9 @@ def check_rt(case, d):
             tags.add("kept")
         if str(e.get("src", "")) > str(e.get("dst", "")):
             tags.add("reversed")
-    if isinstance((case.get("graph") or {}).get("edges"), list):
+    if isinstance((graph_ref or {}).get("edges"), list):
         tags.add("list-edges")
-    if isinstance((case.get("graph") or {}).get("nodes"), list):
+    if isinstance((graph_ref or {}).get("nodes"), list):
         tags.add("list-nodes")
     if len({pair_of(e.get("src", ""), e.get("dst", "")) for e in ein}) < len(ein):
         tags.add("collapsed")
@@ -466,7 +570,7 @@ def check_rt(case, d):
             else:
                 sig = "fixpoint:" + genpath(p)
                 if len(p) >= 4 and p[0] == "gel" and p[1] == "edges" and p[-1] == "weight":
-                    sig += _edge_feature(case, prev_doc, p)
+                    sig += _edge_feature(dict(case, graph=graph_ref), prev_doc, p)
             out.append((sig, "write#%d differs from write#%d at %s: %s -> %s" % (
                 hop + 1, hop, "/".join(map(str, p or ())), _at(prev_doc, p), _at(docN, p))))
             tags.add("not-fixpoint")
@@ -512,6 +616,27 @@ def dedupe(res):
     return out
 
 
+def live_class(case) -> str:
+    """input class of a live case: how the `gel` mirror relates to `graph`"""
+    m = case.get("mirror", "absent")
+    part = {"absent": "graph-only", "same": "gel-is-graph", "shallow": "gel-shallow-copy"}.get(m, "gel-distinct-object")
+    return "live[%s]" % part
+
+
+def finalize_rt(case, res, d):
+    """dedupe; for a live case with a `gel` mirror, name the layout in the signature of those failures only that the
+    graph-only twin (same initial graph, same GEL history, no mirror) does not show - a failure the twin shows as
+    well is not about the layout and keeps its plain signature.  The twin is only executed when there is a failure."""
+    res = dedupe(res)
+    if res and is_live(case) and case.get("mirror", "absent") != "absent":
+        twin = dict(case, mirror="absent")
+        tw = {s for s, _ in dedupe(check_rt(twin, d)[0])}
+        if tw:
+            res = dedupe(check_rt(case, d, collapse=False)[0])
+        res = [((s if s in tw else live_class(case) + ":" + s), w) for s, w in res]
+    return res
+
+
 def _rt_worker(chunk, st: Stats, scratch_root):
     d = os.path.join(scratch_root, "rt-w%d" % os.getpid())
     os.makedirs(d, exist_ok=True)
@@ -530,10 +655,13 @@ def _rt_worker(chunk, st: Stats, scratch_root):
         st.add("validated")
         st.add("rt_cases")
         st.distinct("states", case)
-        res = dedupe(res)
+        res = finalize_rt(case, res, d)
         oc = tuple(sorted(tags)) + tuple(sorted("FAIL:" + s for s, _ in res))
         st.distinct("outcomes", (case["cfg"],) + oc)
-        if tags & {"nonfinite", "clamped", "rounded", "reversed", "list-edges", "list-nodes", "collapsed", "store-nonfinite"}:
+        if is_live(case):
+            st.add("live_cases")
+        if tags & {"nonfinite", "clamped", "rounded", "reversed", "list-edges", "list-nodes", "collapsed", "store-nonfinite",
+                   "graph-evolved", "mirror-diverged", "mirror-equal-copy"}:
             st.add("nontrivial")
         for sig, what in res:
             st.violation(sig, what, case)
@@ -729,6 +857,159 @@ def enumerate_rt(thorough: bool):
             seen.add(k)
             uniq.append(c)
     return uniq, skipped
+
+
+def live_graphs():
+    e = mk_edge("a", "b", "coact", 0.5, {"coact": 1, "last_seen_turn": None}, None)
+    full_meta = {"schema": "v1.1", "merges": [], "splits": [], "promotions": [], "concept_nodes_count": 0, "edges_count": 0}
+    return [
+        ("none", None),
+        ("empty", {"nodes": {}, "edges": {}, "meta": dict(full_meta)}),
+        ("one-edge", mk_graph([e], "dict-canon", nodes={"a": {"id": "a", "label": "é", "attrs": {}}}, meta=dict(full_meta, edges_count=1))),
+    ]
+
+
+def live_bound(thorough: bool) -> int:
+    return 3 if thorough else 2
+
+
+def enumerate_live(thorough: bool):
+    """state-field layouts x GEL histories (all op sequences up to the bound) x state shape x live cfg.
+    Only states whose live graph holds at least one edge at write time are enumerated (an initial edge, or an
+    observation in the history): for an empty / absent state.graph the documented `gel` fallback applies and the
+    property does not say which of the two is 'the graph that was written'."""
+    L = live_bound(thorough)
+    seqs = [()]
+    for n in range(1, L + 1):
+        seqs += list(itertools.product(GEL_OPS, repeat=n))
+    cases = []
+    for gname, g0 in live_graphs():
+        for mirror in MIRRORS:
+            if g0 is None and mirror in ("same", "shallow", "deep"):
+                continue          # nothing to mirror
+            for ops in seqs:
+                if gname != "one-edge" and not any(o.startswith("obs") for o in ops):
+                    continue      # live graph would be empty at write time
+                if mirror == "absent" and not ops:
+                    continue      # plain rt case (F1)
+                for shp in ("dict", "ns"):
+                    for cfg in LIVE_CFGS:
+                        cases.append(base_case(copy.deepcopy(g0), cfg, shape=shp, store=[["node", "a", "weight", 0.5]],
+                                               mirror=mirror, ops=list(ops)))
+    return cases
+
+
+# ----------------------------------------------------------------------------- environment answers
+# Every process-environment variable the snapshot writers consult (grep of snapshot.py / io/atomic.py for os.environ;
+# the directory variables of io/paths.py are overridden by the explicit t4.snapshot_dir of every ctx here).
+ENV_ALPHABET = {
+    "SOURCE_DATE_EPOCH": [
+        # (value or None = unset, class)
+        (None, "unset"),
+        ("1735689600", "integer"), ("0", "integer"), ("-1", "integer"), (" 1735689600 ", "integer"),
+        ("", "not-an-integer"), ("2025-01-01", "not-an-integer"), ("1735689600.5", "not-an-integer"),
+        ("1735689600000000000", "integer-beyond-time-range"),     # `date +%s%N`
+    ],
+}
+ENV_UNUSABLE = {"not-an-integer", "integer-beyond-time-range"}
+
+
+def env_class(var, value) -> str:
+    for v, c in ENV_ALPHABET.get(var, ()):
+        if v == value:
+            return c
+    return "other"
+
+
+ENV_PINNED = {"SOURCE_DATE_EPOCH": "1735689600"}     # the environment of every other leg
+
+
+def _run_under_env(env, sub, d):
+    saved = {k: os.environ.get(k) for k in env}
+    try:
+        for k, v in env.items():
+            if v is None:
+                os.environ.pop(k, None)
+            else:
+                os.environ[k] = v
+        if sub.get("kind") == "rt":
+            res, tags, steps = check_rt(sub, d)
+            res = finalize_rt(sub, res, d)
+        elif sub.get("kind") == "auto-marker":
+            res = [(s, w) for s, _lab, w in check_auto_marker(d)]
+            tags, steps = {"auto"}, 3
+        else:
+            raise HarnessError("unknown env sub-case kind %r" % sub.get("kind"))
+    finally:
+        for k, v in saved.items():
+            if v is None:
+                os.environ.pop(k, None)
+            else:
+                os.environ[k] = v
+    return res, tags, steps
+
+
+def check_env(case, d):
+    """run the sub-case with the process environment of the case; -> (violations, tags, transitions).
+    A failure that the same sub-case also shows under the pinned environment is not about the environment and keeps
+    its plain signature; the pinned twin is only executed when there is a failure."""
+    env = case["env"]
+    sub = case["sub"]
+    res, tags, steps = _run_under_env(env, sub, d)
+    base = set()
+    if res and any(ENV_PINNED.get(k) != v for k, v in env.items()):
+        base = {s for s, _ in _run_under_env({k: ENV_PINNED[k] for k in env}, sub, d)[0]}
+    classes = sorted("%s:%s" % (k, env_class(k, v)) for k, v in env.items())
+    if any(env_class(k, v) in ENV_UNUSABLE for k, v in env.items()):
+        # a writer that refuses loudly under an unusable value has written no snapshot: nothing to judge
+        refused = [s for s, _ in res if s.startswith(("write:raises", "auto:raises")) and s not in base]
+        if refused:
+            tags = set(tags) | {"write-refused"}
+            res = [(s, w) for s, w in res if s not in refused]
+    label = "env[%s]" % ",".join(classes)
+    what_env = " ".join("%s=%r" % (k, v) for k, v in sorted(env.items()))
+    seen, out = set(), []
+    pinned = all(ENV_PINNED.get(k) == v for k, v in env.items())
+    for s, w in res:
+        if s not in seen:
+            seen.add(s)
+            out.append((s if (pinned or s in base) else label + ":" + s, "%s: %s" % (what_env, w)))
+    return out, set(tags) | set(classes), steps
+
+
+def _env_worker(chunk, st: Stats, scratch_root):
+    d = os.path.join(scratch_root, "env-w%d" % os.getpid())
+    os.makedirs(d, exist_ok=True)
+    import logging
+    logging.disable(logging.CRITICAL)
+    for case in chunk:
+        res, tags, steps = check_env(case, d)
+        st.add("transitions", steps)
+        st.add("validated")
+        st.add("env_cases")
+        st.distinct("states", case)
+        st.distinct("outcomes", ("env",) + tuple(sorted(tags)) + tuple(sorted("FAIL:" + s for s, _ in res)))
+        if any(v != "1735689600" for v in case["env"].values()):
+            st.add("nontrivial")
+        for sig, what in res:
+            st.violation(sig, what, case)
+    if chunk:
+        st.sample(chunk[len(chunk) // 2])
+    shutil.rmtree(d, ignore_errors=True)
+
+
+def enumerate_env(thorough: bool):
+    g1 = mk_graph([mk_edge("b", "a", "coact", 7.0, {"coact": 2}, None)], "dict-canon",
+                  nodes={"a": {"id": "a", "label": "é", "attrs": {}}})
+    subs = [base_case(g1, store=[["node", "a", "weight", 0.1234567891]], agent=ag, shape=shp)
+            for ag in ("A", "é") for shp in ("dict", "ns")]
+    subs.append({"kind": "auto-marker"})
+    cases = []
+    for var, vals in ENV_ALPHABET.items():
+        for v, _cls in vals:
+            for sub in subs:
+                cases.append({"kind": "env", "env": {var: v}, "sub": sub})
+    return cases
 
 
 # ----------------------------------------------------------------------------- discovery
@@ -1070,16 +1351,35 @@ def enumerate_hist(thorough: bool):
 
 # ----------------------------------------------------------------------------- PR34 writer marker leg
 def check_auto_marker(d):
-    """write_snapshot_auto full + delta: every file written has a sidecar with the marker"""
+    """write_snapshot_auto full + delta: every file written has a sidecar with the marker.  -> [(sig, writer label, what)]"""
     out = []
     clean_dir(d)
     import contextlib, io
-    with contextlib.redirect_stderr(io.StringIO()):
-        p1, _ = snap.write_snapshot_auto(d, etag_from=None, etag_to="1", payload={"version_etag": "1", "store": {}}, delta_mode=False)
-        p2, was_delta = snap.write_snapshot_auto(d, etag_from="1", etag_to="2", payload={"version_etag": "2", "store": {}}, delta_mode=True)
-        p3, _ = snap.write_snapshot_auto(d, etag_from="9", etag_to="3", payload={"version_etag": "3"}, delta_mode=True)
-    for p, lab in ((p1, "auto-full"), (p2, "auto-delta" if was_delta else "auto-full#2"), (p3, "auto-fallback-full")):
-        out += [(s + ":" + lab.split("#")[0], w) for s, w in check_marker(p, None, lab, body_must=False)]
+    calls = [
+        ("auto-full", dict(etag_from=None, etag_to="1", payload={"version_etag": "1", "store": {}}, delta_mode=False)),
+        ("auto-delta", dict(etag_from="1", etag_to="2", payload={"version_etag": "2", "store": {}}, delta_mode=True)),
+        ("auto-fallback-full", dict(etag_from="9", etag_to="3", payload={"version_etag": "3"}, delta_mode=True)),
+    ]
+    for lab, kw in calls:
+        try:
+            with contextlib.redirect_stderr(io.StringIO()):
+                p, was_delta = snap.write_snapshot_auto(d, **kw)
+        except Exception as e:
+            out.append(("auto:raises:" + type(e).__name__, lab, "write_snapshot_auto(%s) raised %r" % (lab, e)))
+            continue
+        if lab == "auto-delta" and not was_delta:
+            lab = "auto-full"
+        out += [(s, lab, w) for s, w in check_marker(p, None, lab, body_must=False)]
+    return out
+
+
+def auto_marker_violations(d):
+    """signatures of the stand-alone PR34 marker leg (one per writer entry point)"""
+    seen, out = set(), []
+    for s, lab, w in check_auto_marker(d):
+        if (s, lab) not in seen:
+            seen.add((s, lab))
+            out.append((s + ":" + lab, w))
     return out
 
 
@@ -1088,8 +1388,15 @@ def run(run: Run) -> None:
     if not hasattr(snap, "os"):
         raise HarnessError("seam missing: clematis.engine.snapshot.os (directory listing order)")
     cases, skipped = enumerate_rt(run.thorough)
+    lcases = enumerate_live(run.thorough)
+    ecases = enumerate_env(run.thorough)
     dcases = enumerate_disc(run.thorough)
     run.notes["rt_cases_enumerated"] = len(cases)
+    run.notes["live_cases_enumerated"] = len(lcases)
+    run.notes["live_bound"] = {"mirrors": MIRRORS, "gel_ops": GEL_OPS, "max_ops_per_history": live_bound(run.thorough),
+                               "cfgs": sorted(LIVE_CFGS)}
+    run.notes["env_cases_enumerated"] = len(ecases)
+    run.notes["env_alphabet"] = {k: [v for v, _ in vals] for k, vals in ENV_ALPHABET.items()}
     hcases = enumerate_hist(run.thorough)
     h_agents, h_states, h_len = hist_alphabet(run.thorough)
     run.notes["disc_cases_enumerated"] = len(dcases)
@@ -1109,15 +1416,24 @@ def run(run: Run) -> None:
         "hist: every sequence of exactly %d writes over (agent in %s) x (state in %s: two states whose bodies have equal length, "
         "one longer) into one shared snapshot directory - covers first writes, re-writes with changed and with byte-identical "
         "content, alone and next to other agents' bodies; after EVERY write a fresh state is loaded (both listdir orders) and must "
-        "get the state written last; non-trivial = a step re-writes an existing body or writes next to another agent's body."
-        % (" x 3 attrs x 3 updated_at under 2 of the cfgs" if run.thorough else "", len(MEMBERS), h_len, h_agents, h_states))
-    run.pmap(_rt_worker, cases, extra=(run.scratch,))
+        "get the state written last; non-trivial = a step re-writes an existing body or writes next to another agent's body. "
+        "live: the rt chain on states laid out and evolved by the engine: initial graph in {absent, empty, one edge} x `gel` "
+        "mirror layout in %s (same object / dict() copy / deep copy / separately built empty graph / stale other graph) x "
+        "every sequence of <=%d real GEL operations %s executed on the state before the write x state shape x %d GEL-enabled "
+        "cfgs, restricted to states whose live state.graph holds >=1 edge at write time; reference input = state.graph at "
+        "write time; non-trivial = the operations changed the graph or the mirror is a distinct object. "
+        "env: {4 rt cases, PR34 full+delta+fallback writers} x every value of SOURCE_DATE_EPOCH in %s (None = unset), set in "
+        "the process environment for the whole chain; non-trivial = any value other than the pinned one."
+        % (" x 3 attrs x 3 updated_at under 2 of the cfgs" if run.thorough else "", len(MEMBERS), h_len, h_agents, h_states,
+           MIRRORS, live_bound(run.thorough), GEL_OPS, len(LIVE_CFGS), [v for v, _ in ENV_ALPHABET["SOURCE_DATE_EPOCH"]]))
+    run.pmap(_rt_worker, cases + lcases, extra=(run.scratch,))
+    run.pmap(_env_worker, ecases, extra=(run.scratch,))
     run.pmap(_disc_worker, dcases, extra=(run.scratch,))
     run.pmap(_hist_worker, hcases, extra=(run.scratch,))
     if run.n.get("listdir_intercepted", 0) == 0:
         raise HarnessError("seam missing: snapshot discovery no longer lists the directory through snapshot.os.listdir/scandir")
     d = os.path.join(run.scratch, "auto")
-    for sig, what in check_auto_marker(d):
+    for sig, what in auto_marker_violations(d):
         run.violation(sig, what, {"kind": "auto-marker"})
     run.add("transitions", 3)
     run.add("validated")
@@ -1133,7 +1449,15 @@ def run(run: Run) -> None:
     run.assume("hist: time passes between two writes of a history (harness-owned clock: before each write every file stamped by the "
                "real clock is moved to the next logical second, preserving the age order of the files already present); two writes "
                "inside one timestamp tick are not enumerated, and the loading ctx is always the agent that wrote last")
-    run.assume("SOURCE_DATE_EPOCH pinned so sidecars never read the wall clock; one snapshot directory per execution")
+    run.assume("SOURCE_DATE_EPOCH pinned (1735689600) in every leg but env; in the env leg the sidecar may read the wall clock "
+               "(unset / unusable value) - only its schema marker is judged, never created_at; one snapshot directory per execution")
+    run.assume("live: 'the GEL graph that was written' is state.graph (docs/m11/overview.md: snapshots include state.graph.*; "
+               "gel.py: only state.graph is mutated); a `gel` field is a compatibility mirror and is judged only while "
+               "state.graph holds at least one edge (with an empty / absent state.graph the writer's fallback to `gel` is not judged)")
+    run.assume("live: GEL operations run with graph.enabled=true and otherwise default graph.* settings, fixed retrieval lists "
+               "over ids {a, b, 'ç'}; a GEL operation that raises is reported (live:gel-op-raises) rather than skipped")
+    run.assume("env: a writer that raises under a SOURCE_DATE_EPOCH that is not a usable integer (empty, date string, fractional, "
+               "beyond the platform time range) has refused to write and is not judged; under unset / integer values a raise is a violation")
 
 
 def replay(case):
@@ -1143,13 +1467,15 @@ def replay(case):
     d = tempfile.mkdtemp(prefix="c06r", dir="/dev/shm" if os.path.isdir("/dev/shm") else None)
     try:
         if case.get("kind") == "rt":
-            return dedupe(check_rt(case, d)[0])
+            return finalize_rt(case, check_rt(case, d)[0], d)
         if case.get("kind") == "disc":
             return check_disc(case, d)[0]
         if case.get("kind") == "hist":
             return check_hist(case, d)[0]
         if case.get("kind") == "auto-marker":
-            return check_auto_marker(d)
+            return auto_marker_violations(d)
+        if case.get("kind") == "env":
+            return check_env(case, d)[0]
         raise HarnessError("unknown case kind %r" % case.get("kind"))
     finally:
         shutil.rmtree(d, ignore_errors=True)
